@@ -182,3 +182,19 @@ class ImmutableBaseModel(BaseModel):
             msg = f"{self.__class__.__name__} is immutable"
             raise AttributeError(msg)
         super().__setattr__(name, value)
+
+    def __delattr__(self, name: str) -> None:
+        """Attribute deletion method.
+
+        This method deletes an attribute if the object is not immutable.
+
+        Args:
+            name: The name of the attribute to delete.
+
+        Raises:
+            AttributeError: Raised if the object is immutable and cannot be modified.
+        """
+        if name != "_is_immutable" and self._is_immutable:
+            msg = f"{self.__class__.__name__} is immutable"
+            raise AttributeError(msg)
+        super().__delattr__(name)
